@@ -279,3 +279,13 @@ PROPS["C13"] = dict(
     ],
     assumptions=["rotation tracks (compressed quaternions) are left empty: their element size differs by version and the generator keeps to vec3 tracks"],
 )
+
+PROPS["C05"] = dict(
+    rule="valid seed files of every format (MPQ V1..V4 incl. one behind a user-data header, COPY and BSD0 patches, M2 models in three versions, skins in both layouts, ADT tiles of three versions, WMO roots and groups of three versions, the repository's BLP fixtures plus encoder output for seven encodings with full mip chains, a WDBC table, WDT and WDL files) are mutated by: every prefix (quick: ~48 per seed), every aligned dword of the first KiB and every chunk/sub-chunk size field and MCNK header dword replaced by 0, 1, 2^31-1, 2^31, 2^32-1, len-1, len, len+1 (quick: a rotating third of the fields), pairs of hostile values in the first 8 dwords, chunk deletion / duplication / swapping, and random havoc; every public open/parse/list/read entry point of the format runs on each mutant in a supervised worker process: a panic (caught, identified by file and message), a worker death (abort, failed allocation, stack overflow), no progress for 25 s, a peak allocation above 256 MiB, or a single request above 3 GiB is a failure. The MPQ header search and ADT chunk discovery results on the mutants are compared with the Lean model. non-trivial = a mutant the parser rejected with an error",
+    trusted_base=COMMON_TB + [
+        "absence of panics/aborts is a property of the compiled Rust code: it is established by running it (sampling), the theorems cover only the modelled loops and the allocation rule",
+        "the harness is built with overflow checks on (as `cargo test` builds are), so arithmetic overflow counts as a panic",
+        "allocation accounting is by a counting global allocator in the worker; the 256 MiB / 3 GiB thresholds are the harness' reading of 'out of proportion' for inputs of a few KiB to ~1 MiB",
+    ],
+    assumptions=["anim files have no generator (AnimFile::parse runs on the M2 mutants only)"],
+)
